@@ -18,7 +18,13 @@ EPOCH = '1234567890'
 BUILDTIME = '2009-02-13 23:31:30'
 
 
+REPO = Path(os.environ.get('PYTHONPATH', '/repo').split(':')[0])
+
+
 def materialise(base: Path, case: dict, order_seed: int) -> None:
+    if 'external' in case:
+        base.mkdir(parents=True, exist_ok=True)
+        return
     if base.exists():
         shutil.rmtree(base)
     base.mkdir(parents=True)
@@ -71,7 +77,7 @@ def run_once(base: Path, case: dict, out: Path, seed: int, shuffle: int) -> tupl
     env = dict(os.environ)
     env['PYTHONHASHSEED'] = str(seed)
     env.pop('SOURCE_DATE_EPOCH', None)
-    args = list(case['args'])
+    args = [a.replace('{SRC}', str(base)) for a in case['args']]
     if case.get('time', 'epoch') == 'epoch':
         env['SOURCE_DATE_EPOCH'] = EPOCH
     else:
@@ -79,7 +85,7 @@ def run_once(base: Path, case: dict, out: Path, seed: int, shuffle: int) -> tupl
     if case.get('templates'):
         args.append('--template-dir=' + str(base / 'templates_dir'))
     cmd = [sys.executable, WRAPPER, str(shuffle)] + args + ['--html-output=' + str(out)] + \
-          [str(base / r) for r in case['roots']]
+          ([str(REPO / case['external'])] if 'external' in case else [str(base / r) for r in case['roots']])
     try:
         pr = subprocess.run(cmd, stdout=subprocess.PIPE, stderr=subprocess.STDOUT, timeout=600, env=env, cwd=str(base))
         return pr.returncode, pr.stdout.decode('utf-8', 'replace')
